@@ -19,6 +19,7 @@ RULE = ("Generated scripted value sequences (families: monotone, oscillating, co
         "after the first admissible check, or never, with patience >= 1 (and periods different in part of the cases).")
 RULE_EXT = ('Extended as built: the recorded value the evaluator actually stored (torch.var_mean for variance) feeds the reference, two rounds with clear_history in between, evaluator given as metric or observable, default criterion, construction-time validation. Round 5: starting_epoch 1..4, evaluators that track other quantities besides the monitored one, variance_name passed to the deprecated class (documented as ignored), a second stopper (tolerance 0) on the same evaluator before or after the first.')
 RULE_EXT += ' Round 10 (after an exception / long time axis): scripts of 66-110 evaluations (slowly converging with the tolerance just above the deviation of evaluation 60-77, periodic with period 31-65, random); between two rounds a fit() whose evaluation fails after the monitored metric was computed (caught), the unrecorded value recurring in 3 of 4 such cases.'
+RULE_EXT += ' Round 11 (re-entrant use / feature interactions): evaluator.clear_history() called from a callback at the start of a chosen epoch of the running fit (modelled by the reference); a busy callback.'
 RULE = RULE + " " + RULE_EXT
 ASSUMPTIONS = ["comparisons whose reference value (relative criterion) is exactly 0, and comparisons within 1e-9 relative of the "
                "tolerance, are undefined/borderline: the run is cut just before the first such check (counted, label 'truncated'); a standard "
